@@ -17,7 +17,7 @@ def probe(rng, cid, lock):
     sc += [str(nw)] * 24
     lines = [f'case {cid} cv=any lock={lock} flag=0 seed={rng.below(1 << 30)} strat={rng.weighted([(0, 3), (2, 1)])} script=' + ','.join(sc)]
     for w in range(nw):
-        lines.append(f'thread {w}: lock ; swaitp ; unlock ;')
+        lines.append(f'thread {w}: lock ; ' + rng.weighted([('swaitp', 4), ('stwaitp', 1)]) + ' ; unlock ;')
     lines.append(f'thread {nw}: ' + rng.weighted([('stop ;', 3), ('lock ; set 1 ; unlock ; stop ;', 1), ('lock ; stop ; unlock ;', 1)]))
     lines.append('endcase')
     return '\n'.join(lines)
@@ -75,7 +75,7 @@ def gen(rng, cid):
                 ops.append('lock')
                 for _ in range(rng.weighted([(1, 6), (2, 1)])):
                     if stopcase and rng.below(3) != 0:
-                        ops.append('swaitp')
+                        ops.append(rng.weighted([('swaitp', 3), ('stwaitp', 1)]))
                     else:
                         ops.append(rng.weighted([('wait', 4), ('waitp', 3), ('twait', 3), ('twaitp', 3)]))
                     if rng.below(4) == 0:
@@ -111,7 +111,8 @@ def stats(c, r):
             'notify_none': raw.count(' cv.none '), 'resume_dropped': raw.count(' ag.resume.dropped '),
             'timed_wait_signalled': raw.count(' cv.woke 5 0 1'), 'timed_wait_timed_out': raw.count(' cv.woke 5 1 1'),
             'untimed_spurious_wake': raw.count(' cv.woke 5 1 0'),
-            'stop_token_waits': raw.count(' inv.swaitp '), 'request_stop_calls': raw.count(' inv.stop '),
+            'stop_token_waits': raw.count(' inv.swaitp '), 'timed_stop_token_waits': raw.count(' inv.stwaitp '),
+            'timed_stop_wait_should_stop': raw.count(' cva.stop2 2 1 '), 'request_stop_calls': raw.count(' inv.stop '),
             'stop_callbacks_dequeued': raw.count(' stop.deq '), 'stop_callbacks_inline': raw.count(' stop.infin '),
             'stop_seen_at_S0': raw.count(' cva.stop0 2 1 '), 'stop_seen_at_S1': raw.count(' cva.stop1 2 1 '),
             'stop_unlinked_by_waiter': sum(1 for l in raw.split('\n') if ' stop.unlink ' in l and l.split()[3] == '1'),
@@ -143,8 +144,8 @@ _unwrap_replay()
 e1check.run(dict(
     prop='C07', model='cv', harness='e1/cv.cpp', bin='e1_cv', gen=gen, nontrivial=nontrivial, stats=stats,
     quick=6000, thorough=150000, extra=12000,
-    rule='random programs (2-6 threads, 1-3 blocks each: waiter blocks lock;wait|wait(pred)|wait_for|wait_for(pred)|wait(stop_token,pred);unlock, notifier blocks with set/notify_one/notify_all inside or after the critical section, bare notifies, request_stop inside/after/without a critical section) on one pika::condition_variable or condition_variable_any with a user-defined lock (via std::unique_lock or directly) or std::unique_lock<spinlock>, one shared stop_source in about 40 % of the condition_variable_any cases (a few of them on pika tasks instead of OS threads), PRNG schedules (uniform / priority / sticky; a third of the stop-token cases with a directed prefix of 2-4 long single-thread runs, and 1 in 8 of them a preemption-bounded probe: 1-2 stop-token waiters run a chosen number of steps, then request_stop runs to completion), virtual deadlines; non-trivial = at least one thread enqueued on the condition variable; distinct = distinct (program, schedule seed) text',
-    assumptions=['of the stop-token waits only wait(lock, stop_token, pred) is in the Lean model; wait_until/wait_for(lock, stop_token, ...) are not; the stop state is modelled through the interface events of Model/CV.lean (its lock loops are the subject of C14)',
+    rule='random programs (2-6 threads, 1-3 blocks each: waiter blocks lock;wait|wait(pred)|wait_for|wait_for(pred)|wait(stop_token,pred)|wait_for(stop_token,d,pred);unlock, notifier blocks with set/notify_one/notify_all inside or after the critical section, bare notifies, request_stop inside/after/without a critical section) on one pika::condition_variable or condition_variable_any with a user-defined lock (via std::unique_lock or directly) or std::unique_lock<spinlock>, one shared stop_source in about 40 % of the condition_variable_any cases (a few of them on pika tasks instead of OS threads), PRNG schedules (uniform / priority / sticky; a third of the stop-token cases with a directed prefix of 2-4 long single-thread runs, and 1 in 8 of them a preemption-bounded probe: 1-2 stop-token waiters run a chosen number of steps, then request_stop runs to completion), virtual deadlines; non-trivial = at least one thread enqueued on the condition variable; distinct = distinct (program, schedule seed) text',
+    assumptions=['the stop state of the stop-token waits is modelled through the interface events of Model/CV.lean (its lock loops are the subject of C14; the stop.* lines of every log are also replayed through C14\'s acceptor); one shared stop_source',
                  'the user lock is modelled as an abstract mutual-exclusion lock; pika::mutex as the user lock (needs pika task identity) is not exercised by the harness',
                  'predicate state is changed only while holding the user lock (operation set)'],
 ))
